@@ -199,3 +199,294 @@ theorem pos_cover (p : Nat) (hp : p < 36) : p ∈ Gen.uu_hyphens ∨ ∃ k, k < 
       all_goals omega
 
 end U.UU
+namespace U.UU
+open U
+
+/-! ## the 36-byte body -/
+
+/-- what `core` checks of the 36 bytes after the offset -/
+def TextOf (u : Bool) (body : Bytes) (i : ID) : Prop :=
+  (∀ p, p ∈ Gen.uu_hyphens → body[p]? = some 45) ∧
+  ∀ k, k < 32 → ∃ c, body[pos k]? = some c ∧ parseDigit c u = some (nibble i k)
+
+theorem core_ok_iff_textOf (pre body : Bytes) (u : Bool) (i : ID) :
+    core (pre ++ body) pre.length u = .ok i ↔ TextOf u body i := by
+  rw [core_ok_iff]
+  have e : ∀ p, (pre ++ body)[pre.length + p]? = body[p]? := fun p => by
+    rw [List.getElem?_append_right (by omega)]
+    congr 1; omega
+  simp only [e, TextOf, Gen.uu_hyphens, List.mem_cons, List.not_mem_nil, or_false, forall_eq_or_imp, forall_eq]
+
+/-- the body condition in list form: lower-casing the hex letters gives the canonical text, and with
+upper-case digits disallowed the body is the canonical text itself -/
+theorem textOf_iff (u : Bool) (body : Bytes) (i : ID) (hlen : body.length = 36) :
+    TextOf u body i ↔ body.map lowerHex = format [] i false ∧ (u = false → body = format [] i false) := by
+  rw [format_eq_layout]
+  constructor
+  · rintro ⟨hh, hd⟩
+    have hl : ∀ p : Nat, (body.map lowerHex)[p]? = (layoutOf (nibble i))[p]? ∧
+        (u = false → body[p]? = (layoutOf (nibble i))[p]?) := by
+      intro p
+      by_cases hp : p < 36
+      · rcases pos_cover p hp with hy | ⟨k, hk, rfl⟩
+        · rw [List.getElem?_map, hh p hy, layoutOf_hyphen _ p hy]
+          exact ⟨rfl, fun _ => rfl⟩
+        · obtain ⟨c, hc, hv⟩ := hd k hk
+          rw [parseDigit_iff] at hv
+          rw [List.getElem?_map, hc, layoutOf_digit _ k hk, Option.map_some, hv.2.1]
+          exact ⟨rfl, fun hu => by rw [hv.2.2 hu]⟩
+      · rw [List.getElem?_eq_none (by rw [List.length_map]; omega),
+          List.getElem?_eq_none (by rw [layoutOf_length]; omega), List.getElem?_eq_none (by omega)]
+        exact ⟨rfl, fun _ => rfl⟩
+    exact ⟨List.ext_getElem? (fun p => (hl p).1), fun hu => List.ext_getElem? (fun p => (hl p).2 hu)⟩
+  · rintro ⟨hm, hu⟩
+    have hget : ∀ p : Nat, (body[p]?).map lowerHex = (layoutOf (nibble i))[p]? := fun p => by
+      rw [← hm, List.getElem?_map]
+    constructor
+    · intro p hp
+      have := hget p
+      rw [layoutOf_hyphen _ p hp] at this
+      cases hb : body[p]? with
+      | none => rw [hb] at this; simp at this
+      | some c =>
+        rw [hb, Option.map_some, Option.some.injEq, lowerHex_eq_45] at this
+        rw [this]
+    · intro k hk
+      have := hget (pos k)
+      rw [layoutOf_digit _ k hk] at this
+      cases hb : body[pos k]? with
+      | none => rw [hb] at this; simp at this
+      | some c =>
+        rw [hb, Option.map_some, Option.some.injEq] at this
+        refine ⟨c, rfl, (parseDigit_iff _ _ _).mpr ⟨nibble_lt i k, this, fun h => ?_⟩⟩
+        have := congrArg (fun l => l[pos k]?) (hu h)
+        simp only [hb, layoutOf_digit _ k hk, Option.some.injEq] at this
+        exact this
+
+theorem format_length (i : ID) : (format [] i false).length = 36 := by
+  rw [format_eq_layout]; rfl
+
+theorem format_urn (i : ID) : format [] i true = Gen.uu_URNPrefix ++ format [] i false := by
+  simp only [format, if_true, Bool.false_eq_true, if_false, List.nil_append, List.append_assoc]
+
+theorem URNCasing.length {p : Bytes} (h : URNCasing p) : p.length = 9 := by
+  obtain ⟨_, _, _, rfl, _⟩ := h; rfl
+
+/-! ## the parser, framed -/
+
+/-- which offset the parser uses: 0 for a 36-byte input, 9 for a 45-byte input with an accepted prefix -/
+def Framed (dURN : Bool) (s : Bytes) (off : Nat) : Prop :=
+  (s.length = 36 ∧ off = 0) ∨ (s.length = 45 ∧ off = 9 ∧ dURN = false ∧ URNCasing (s.take 9))
+
+theorem parse_framed (maxLen : Nat) (dURN dUpper : Bool) (s : Bytes) (off : Nat)
+    (hlen : maxLen = 0 ∨ s.length ≤ maxLen) (hf : Framed dURN s off) :
+    parse maxLen dURN dUpper s = core s off (!dUpper) := by
+  rw [parse_eq, if_neg (by omega)]
+  rcases hf with ⟨h36, rfl⟩ | ⟨h45, rfl, rfl, hc⟩
+  · rw [if_pos h36]
+  · rw [if_neg (by omega), if_pos h45]
+    simp only [Bool.false_eq_true, if_false]
+    rcases hasURNPrefix_spec s (by omega) with ⟨h, _⟩ | ⟨_, h⟩
+    · rw [h]
+    · exact absurd hc h
+
+theorem Framed.length_le {dURN : Bool} {s : Bytes} {off : Nat} (hf : Framed dURN s off) :
+    off + 36 ≤ s.length := by
+  rcases hf with ⟨h, rfl⟩ | ⟨h, rfl, _⟩ <;> omega
+
+/-- **acceptance, exactly**: the parser returns `i` iff the input is within the limit and is an optional
+accepted URN prefix followed by 36 bytes that, with `A`–`F` lower-cased, are the canonical text of `i`
+(and are that text verbatim when upper-case digits are disabled) -/
+theorem parse_ok_iff (maxLen : Nat) (dURN dUpper : Bool) (s : Bytes) (i : ID) :
+    parse maxLen dURN dUpper s = .ok i ↔
+      (maxLen = 0 ∨ s.length ≤ maxLen) ∧
+      ∃ pre body, s = pre ++ body ∧ (pre = [] ∨ (dURN = false ∧ URNCasing pre)) ∧
+        body.map lowerHex = format [] i false ∧ (dUpper = true → body = format [] i false) := by
+  have hu : ((!dUpper) = false) = (dUpper = true) := by cases dUpper <;> simp
+  constructor
+  · intro h
+    rw [parse_eq] at h
+    split at h
+    · simp at h
+    rename_i hlen
+    refine ⟨by omega, ?_⟩
+    split at h
+    · rename_i h36
+      refine ⟨[], s, rfl, Or.inl rfl, ?_⟩
+      have := (core_ok_iff_textOf [] s (!dUpper) i).mp h
+      rw [textOf_iff _ _ _ h36, hu] at this
+      exact this
+    · split at h
+      · rename_i h45
+        split at h
+        · simp at h
+        rename_i hd
+        rcases hasURNPrefix_spec s (by omega) with ⟨hp, hc⟩ | ⟨hp, _⟩
+        · rw [hp] at h
+          simp only [] at h
+          refine ⟨s.take 9, s.drop 9, (List.take_append_drop 9 s).symm, Or.inr ⟨by simpa using hd, hc⟩, ?_⟩
+          have e : core s 9 (!dUpper) = core (s.take 9 ++ s.drop 9) (s.take 9).length (!dUpper) := by
+            rw [List.take_append_drop, List.length_take, Nat.min_eq_left (by omega)]
+          rw [e] at h
+          have := (core_ok_iff_textOf _ _ _ i).mp h
+          rw [textOf_iff _ _ _ (by rw [List.length_drop]; omega), hu] at this
+          exact this
+        · rw [hp] at h; simp at h
+      · simp at h
+  · rintro ⟨hlen, pre, body, rfl, hpre, hm, hup⟩
+    have hb : body.length = 36 := by
+      have := congrArg List.length hm
+      rwa [List.length_map, format_length] at this
+    have ht : TextOf (!dUpper) body i := (textOf_iff _ _ _ hb).mpr ⟨hm, by rw [hu]; exact hup⟩
+    rcases hpre with rfl | ⟨hd, hc⟩
+    · rw [parse_framed maxLen dURN dUpper _ 0 hlen (Or.inl ⟨by simpa using hb, rfl⟩)]
+      exact (core_ok_iff_textOf [] body _ i).mpr ht
+    · have h9 := hc.length
+      rw [parse_framed maxLen dURN dUpper _ 9 hlen
+        (Or.inr ⟨by rw [List.length_append]; omega, rfl, hd, by rw [List.take_left' h9]; exact hc⟩)]
+      rw [← h9]
+      exact (core_ok_iff_textOf pre body _ i).mpr ht
+
+end U.UU
+namespace U.UU
+open U
+
+/-! ## the accessors -/
+
+theorem and_twoPow_eq_zero (x : BitVec 64) (j : Nat) (hj : j < 64) :
+    x &&& BitVec.twoPow 64 j = 0#64 ↔ x.toNat / 2 ^ j % 2 = 0 := by
+  rw [BitVec.and_twoPow, ← BitVec.testBit_toNat, Nat.testBit_eq_decide_div_mod_eq]
+  by_cases h : x.toNat / 2 ^ j % 2 = 1
+  · rw [decide_eq_true h, if_pos rfl]
+    constructor
+    · intro h0
+      have := congrArg BitVec.toNat h0
+      rw [BitVec.toNat_twoPow, Nat.mod_eq_of_lt (Nat.pow_lt_pow_right (by decide) hj)] at this
+      have := Nat.pow_pos (n := j) (show 0 < 2 by decide)
+      have h0' : (0#64 : BitVec 64).toNat = 0 := rfl
+      omega
+    · omega
+  · rw [decide_eq_false h]
+    simp only [Bool.false_eq_true, if_false, true_iff]
+    omega
+
+theorem version_eq (i : ID) : i.version = ((i.hi >>> 12) &&& 15#64).toNat := rfl
+
+theorem variant_eq (i : ID) :
+    i.variant = if i.lo &&& 9223372036854775808#64 = 0#64 then 0
+      else if i.lo &&& 4611686018427387904#64 = 0#64 then 1
+      else if i.lo &&& 2305843009213693952#64 = 0#64 then 2 else 3 := rfl
+
+/-- number of leading one bits of a 4-bit value, capped at 3 -/
+def leadingOnes3 (n : Nat) : Nat := if n < 8 then 0 else if n < 12 then 1 else if n < 14 then 2 else 3
+
+theorem version_nibble (i : ID) : i.version = nibble i 12 := by
+  rw [version_eq, nibble_hi i 12 (by decide), BitVec.toNat_and, BitVec.toNat_ushiftRight,
+    Nat.shiftRight_eq_div_pow]
+  exact Nat.and_two_pow_sub_one_eq_mod _ 4
+
+theorem variant_nibble (i : ID) : i.variant = leadingOnes3 (nibble i 16) := by
+  rw [variant_eq, nibble_lo i 16 (by decide) (by decide)]
+  have e1 : (9223372036854775808#64 : BitVec 64) = BitVec.twoPow 64 63 := by decide
+  have e2 : (4611686018427387904#64 : BitVec 64) = BitVec.twoPow 64 62 := by decide
+  have e3 : (2305843009213693952#64 : BitVec 64) = BitVec.twoPow 64 61 := by decide
+  have hl := i.lo.isLt
+  rw [e1, e2, e3]
+  simp only [and_twoPow_eq_zero _ _ (by decide : 63 < 64), and_twoPow_eq_zero _ _ (by decide : 62 < 64),
+    and_twoPow_eq_zero _ _ (by decide : 61 < 64), leadingOnes3, Nat.reducePow, Nat.reduceSub]
+  repeat' split
+  all_goals omega
+
+/-! ## more vocabulary for the property statements -/
+
+/-- bytes the parser accepts as hex digits (`A`–`F` only when upper case is not disabled) -/
+def HexByte (dUpper : Bool) (c : Nat) : Prop :=
+  (48 ≤ c ∧ c ≤ 57) ∨ (97 ≤ c ∧ c ≤ 102) ∨ (dUpper = false ∧ 65 ≤ c ∧ c ≤ 70)
+
+theorem parseDigit_eq_none_iff (c : Nat) (dUpper : Bool) : parseDigit c (!dUpper) = none ↔ ¬ HexByte dUpper c := by
+  unfold parseDigit HexByte
+  cases dUpper <;>
+    by_cases h1 : 48 ≤ c ∧ c ≤ 57 <;> by_cases h2 : 97 ≤ c ∧ c ≤ 102 <;> by_cases h3 : 65 ≤ c ∧ c ≤ 70 <;>
+    simp [h1, h2, h3]
+
+theorem parseDigit_isSome_of_hexByte (c : Nat) (dUpper : Bool) (h : HexByte dUpper c) :
+    ∃ v, parseDigit c (!dUpper) = some v := by
+  cases hp : parseDigit c (!dUpper) with
+  | none => exact absurd h ((parseDigit_eq_none_iff c dUpper).mp hp)
+  | some v => exact ⟨v, rfl⟩
+
+/-- strip an accepted URN prefix (nine bytes of a 45-byte input) and lower-case `A`–`F` -/
+def normalise (s : Bytes) : Bytes := (if s.length = 45 then s.drop 9 else s).map lowerHex
+
+theorem layoutOf_mem (d : Nat → Nat) (hd : ∀ k, d k < 16) (c : Nat) (hc : c ∈ layoutOf d) :
+    c = 45 ∨ (48 ≤ c ∧ c ≤ 57) ∨ (97 ≤ c ∧ c ≤ 102) := by
+  obtain ⟨p, hp⟩ := List.mem_iff_getElem?.mp hc
+  have hp36 : p < 36 := by
+    have := (List.getElem?_eq_some_iff.mp hp).1
+    exact this
+  rcases pos_cover p hp36 with hy | ⟨k, hk, rfl⟩
+  · rw [layoutOf_hyphen _ _ hy, Option.some.injEq] at hp
+    exact Or.inl hp.symm
+  · rw [layoutOf_digit _ _ hk, Option.some.injEq] at hp
+    subst hp
+    exact Or.inr (hexDigit_lower _ (hd k))
+
+/-- the canonical text contains no upper-case hex letter … -/
+theorem map_lowerHex_format (i : ID) : (format [] i false).map lowerHex = format [] i false := by
+  rw [format_eq_layout]
+  conv => rhs; rw [← List.map_id (layoutOf (nibble i))]
+  apply List.map_congr_left
+  intro c hc
+  have := layoutOf_mem _ (nibble_lt i) c hc
+  rw [lowerHex_of_lower c (by omega)]; rfl
+
+/-- … so upper-casing it is undone by lower-casing -/
+theorem map_lowerHex_upperHex_format (i : ID) :
+    ((format [] i false).map upperHex).map lowerHex = format [] i false := by
+  rw [format_eq_layout, List.map_map]
+  conv => rhs; rw [← List.map_id (layoutOf (nibble i))]
+  apply List.map_congr_left
+  intro c hc
+  have := layoutOf_mem _ (nibble_lt i) c hc
+  simp only [Function.comp_apply, id_eq]
+  exact lowerHex_upperHex c (by omega)
+
+theorem parse_ne_panic (maxLen : Nat) (dURN dUpper : Bool) (s : Bytes) :
+    parse maxLen dURN dUpper s ≠ .panic := by
+  rw [parse_eq]
+  split
+  · simp
+  · split
+    · exact core_ne_panic s 0 _ (by omega)
+    · split
+      · split
+        · simp
+        · rcases hasURNPrefix_spec s (by omega) with ⟨hp, _⟩ | ⟨hp, _⟩
+          · rw [hp]; exact core_ne_panic s 9 _ (by omega)
+          · rw [hp]; simp
+      · simp
+
+theorem parse_err_class (maxLen : Nat) (dURN dUpper : Bool) (s : Bytes) (e : Err)
+    (h : parse maxLen dURN dUpper s = .err e) :
+    e = .tooLong ∨ e = .invalid ∨ e = .urnDisabled ∨
+      ∃ b, e = .invalidDigit b ∧ b ∈ s ∧ ¬ HexByte dUpper b := by
+  have hcore : ∀ off, core s off (!dUpper) = .err e →
+      e = .tooLong ∨ e = .invalid ∨ e = .urnDisabled ∨ ∃ b, e = .invalidDigit b ∧ b ∈ s ∧ ¬ HexByte dUpper b := by
+    intro off hc
+    rcases core_err_class _ _ _ _ hc with h | ⟨b, hb, hm, hn⟩
+    · exact Or.inr (Or.inl h)
+    · exact Or.inr (Or.inr (Or.inr ⟨b, hb, hm, (parseDigit_eq_none_iff b dUpper).mp hn⟩))
+  rw [parse_eq] at h
+  split at h
+  · simp only [Outcome.err.injEq] at h; exact Or.inl h.symm
+  · split at h
+    · exact hcore 0 h
+    · split at h
+      · split at h
+        · simp only [Outcome.err.injEq] at h; exact Or.inr (Or.inr (Or.inl h.symm))
+        · rcases hasURNPrefix_spec s (by omega) with ⟨hp, _⟩ | ⟨hp, _⟩
+          · rw [hp] at h; exact hcore 9 h
+          · rw [hp] at h; simp only [Outcome.err.injEq] at h; exact Or.inr (Or.inl h.symm)
+      · simp only [Outcome.err.injEq] at h; exact Or.inr (Or.inl h.symm)
+
+end U.UU
